@@ -136,6 +136,13 @@ Proof.
        end.
 Qed.
 
+(* while the map entry is still run i the guard of the failed-recovery arm is open: Degraded is written *)
+Lemma close_failed_recovery_owner c s i goto : s_map s = Some i ->
+  close_failed_recovery c s i goto = goto (with_status s Degraded) (CTail1 ResRecovery) (LStatus Degraded).
+Proof.
+  intros Hm. unfold close_failed_recovery, owns_close. rewrite Hm. simpl. rewrite Nat.eqb_refl, orb_true_r. reflexivity.
+Qed.
+
 Lemma clean_step_G c s i ch s' l : G s -> clean_step c s i ch = Some (s', l) -> G s'.
 Proof.
   intros HG H. unfold clean_step in H.
@@ -147,7 +154,7 @@ Proof.
       destruct (start_step c s q ch) as [s1 pc1 l1|s1 x l1|]; [| |discriminate].
       - inversion H; subst; clear H. g_tac HS.
       - destruct x; split_hyp H; g_tac HS. }
-  all: split_hyp H; g_tac HG.
+  all: unfold close_failed_recovery in H; split_hyp H; g_tac HG.
 Qed.
 
 Lemma user_step_G c s ch s' l : G s -> user_step c s ch = Some (s', l) -> G s'.
